@@ -76,6 +76,44 @@ pub struct Request {
     notify_when_responded: Option<Sender<()>>,
 }
 
+/// Chunked body reader that reads and discards what is left of the body when dropped,
+/// so that the next request starts at the right place.
+struct DrainOnDrop<R: Read> {
+    inner: Decoder<R>,
+    // true once the end of the body (or an error) has been reached
+    done: bool,
+}
+
+impl<R: Read> Read for DrainOnDrop<R> {
+    fn read(&mut self, buf: &mut [u8]) -> io::Result<usize> {
+        if self.done || buf.is_empty() {
+            return Ok(0);
+        }
+        match self.inner.read(buf) {
+            Ok(0) => {
+                self.done = true;
+                Ok(0)
+            }
+            Ok(n) => Ok(n),
+            Err(e) => {
+                self.done = true;
+                Err(e)
+            }
+        }
+    }
+}
+
+impl<R: Read> Drop for DrainOnDrop<R> {
+    fn drop(&mut self) {
+        let mut buf = [0u8; 1024];
+        while !self.done {
+            if self.read(&mut buf).is_err() {
+                break;
+            }
+        }
+    }
+}
+
 struct NotifyOnDrop<R> {
     sender: Sender<()>,
     inner: R,
@@ -236,7 +274,10 @@ where
     } else if transfer_encoding.is_some() {
         // if a transfer-encoding was specified, then "chunked" is ALWAYS applied
         // over the message (RFC2616 #3.6)
-        Box::new(FusedReader::new(Decoder::new(source_data))) as Box<dyn Read + Send + 'static>
+        Box::new(FusedReader::new(DrainOnDrop {
+            inner: Decoder::new(source_data),
+            done: false,
+        })) as Box<dyn Read + Send + 'static>
     } else {
         // if we have neither a Content-Length nor a Transfer-Encoding,
         // assuming that we have no data
